@@ -217,6 +217,9 @@ def cases(tier, seed=0):
     out.append(GramOverlap(ls=[0, 1], types="cc", Ks=[2, 1], Ms=[1, 2]))
     out.append(GramOverlap(ls=[2, 1], types="sc", Ks=[1, 1], Ms=[1, 1]))
     out.append(GramOverlap(ls=[3], types="c", Ks=[1], Ms=[1]))
+    # all-spherical basis with a generalized shell (columns of different norm): the third assembly path
+    out.append(GramOverlap(ls=[1, 1], types="ss", Ks=[2, 1], Ms=[2, 1]))
+    out.append(GramKinetic(ls=[1, 0], types="ss", Ks=[2, 1], Ms=[2, 1]))
     out.append(GramKinetic(ls=[0, 1], types="cc", Ks=[2, 1], Ms=[1, 2]))
     out.append(GramKinetic(ls=[2, 1], types="sc", Ks=[1, 1], Ms=[1, 1]))
     out.append(GramPointCharge(ls=[0, 1], types="cc", Ks=[2, 1], Ms=[1, 2], nq=1))
